@@ -735,6 +735,10 @@ impl Context {
                 let b = *i != 0;
                 (format! { "{b}" }.into(), true)
             }
+            // `binary` with pilota.rust_type = "vec"
+            (Literal::String(s), CodegenTy::Vec(inner)) if **inner == CodegenTy::U8 => {
+                (format! { "\"{s}\".as_bytes().to_vec()" }.into(), false)
+            }
             (Literal::String(s), CodegenTy::Bytes) => {
                 let s = &**s;
                 (
